@@ -11,6 +11,7 @@ import "strings"
 func importRules(c *Ctx, foreignProp string, run func(*Ctx), as, text string, min int, keep func(rule string) bool) {
 	sub := NewCtx(foreignProp, c.P, c.Tier)
 	run(sub)
+	sub.Finalize() // vacuity guards of the imported rules count as well
 	c.Rule(as, text, min)
 	for _, o := range sub.Obls {
 		if keep != nil && !keep(o.Rule) {
